@@ -116,6 +116,7 @@ pub struct Machine {
     /// (kind, datum) for display / write calls
     pub output: Vec<(char, Cell)>,
     pub steps: u64,
+    pub total_steps: u64,
     pub step_limit: u64,
     pub max_k_depth: u32,
     gensym: u64,
@@ -150,6 +151,7 @@ impl Machine {
             globals: HashMap::new(),
             output: vec![],
             steps: 0,
+            total_steps: 0,
             step_limit: 400_000,
             max_k_depth: 0,
             gensym: 0,
@@ -842,6 +844,7 @@ impl Machine {
     fn run(&mut self, mut st: State) -> Result<V, Stop> {
         loop {
             self.steps += 1;
+            self.total_steps += 1;
             if self.steps > self.step_limit {
                 return excl("step limit");
             }
